@@ -189,7 +189,14 @@ func norm(v any) any {
 		m := map[string]any{}
 		for i := 0; i < rv.NumField(); i++ {
 			name := rv.Type().Field(i).Name
-			m[strings.ToLower(name[:1])+name[1:]] = norm(rv.Field(i).Interface())
+			switch fv := rv.Field(i).Interface().(type) {
+			case ShadowA:
+				// hidden behind the outer field A
+			case PromoteK:
+				m["k"] = norm(fv.K)
+			default:
+				m[strings.ToLower(name[:1])+name[1:]] = norm(fv)
+			}
 		}
 		return m
 	case reflect.Int, reflect.Int64:
@@ -374,14 +381,41 @@ func toTyped(v any, used map[string]bool, depth int) any {
 		}
 		sort.Strings(keys)
 		var fields []reflect.StructField
+		// embedded structs: a field of the outer struct that shadows one promoted from an embedded struct
+		// declared before it (the outer value must be found), and a field that only exists in the embedded
+		// struct (the promoted value must be found)
+		_, hasA := t["a"]
+		_, hasK := t["k"]
+		shadow := embedOK && hasA && depth%3 == 0
+		promote := embedOK && hasK && depth%3 == 1
+		if shadow {
+			fields = append(fields, reflect.StructField{Name: "ShadowA", Type: reflect.TypeOf(ShadowA{}), Anonymous: true})
+			used["struct-shadowed-embedded-field"] = true
+		}
+		if promote {
+			fields = append(fields, reflect.StructField{Name: "PromoteK", Type: reflect.TypeOf(PromoteK{}), Anonymous: true})
+			used["struct-promoted-field"] = true
+		}
+		first := len(fields)
+		var outer []string
 		for _, k := range keys {
+			if promote && k == "k" {
+				continue
+			}
+			outer = append(outer, k)
 			fields = append(fields, reflect.StructField{Name: strings.ToUpper(k[:1]) + k[1:], Type: reflect.TypeOf((*any)(nil)).Elem()})
 		}
 		used["struct"] = true
 		sv := reflect.New(reflect.StructOf(fields)).Elem()
-		for i, k := range keys {
+		if shadow {
+			sv.Field(0).Set(reflect.ValueOf(ShadowA{A: "decoy that must stay hidden"}))
+		}
+		if promote {
+			sv.FieldByName("PromoteK").Set(reflect.ValueOf(PromoteK{K: toTyped(t["k"], used, depth+1)}))
+		}
+		for i, k := range outer {
 			if e := toTyped(t[k], used, depth+1); e != nil {
-				sv.Field(i).Set(reflect.ValueOf(e))
+				sv.Field(first + i).Set(reflect.ValueOf(e))
 			}
 		}
 		if depth%2 == 0 {
@@ -393,6 +427,15 @@ func toTyped(v any, used map[string]bool, depth int) any {
 	}
 	return v
 }
+
+// embedOK: the path consists of root, child, index and union fragments only. A wildcard, descent, slice or
+// filter over a struct yields the embedded struct itself as a member (not its promoted fields), which has
+// no counterpart in the simple data; field lookup by name is what embedding is about.
+var embedOK bool
+
+// ShadowA and PromoteK are embedded into generated struct types (see toTyped).
+type ShadowA struct{ A any }
+type PromoteK struct{ K any }
 
 type viol struct {
 	entry, kind, class, exp, obs string
@@ -623,6 +666,14 @@ func (ck *checker) check1(p jpref.Path, data any, enum bool) {
 	// other representations
 	reprs := map[string]any{"gen": gd}
 	used := map[string]bool{}
+	embedOK = true
+	for _, f := range p {
+		switch f.Kind {
+		case "root", "at", "child", "nth", "union":
+		default:
+			embedOK = false
+		}
+	}
 	typed := toTyped(treegen.Dup(data), used, 0)
 	if len(used) > 0 {
 		reprs["typed"] = typed
